@@ -143,6 +143,7 @@ name_text = st.one_of(
 )
 str_text = st.text(alphabet=st.characters(min_codepoint=32, max_codepoint=126, blacklist_characters='"'), min_size=1, max_size=6)
 _structs = None
+FN_WORDS = ["Door", "Pump", "Gate", "Show2", "Tank", "Left"]
 
 
 def struct_names():
@@ -160,10 +161,22 @@ def string_programs(draw):
     L = [programs.HDR.rstrip("\n")]
     n = draw(st.integers(1, 8))
     ss = struct_names()
+    fns = []
+    if draw(st.booleans()):
+        # user functions that stay out of line (two call sites) and a loop: their labels exist in the verbose output,
+        # and some device names below contain those very words (text-level label removal must not touch them)
+        fns = draw(st.lists(st.sampled_from(FN_WORDS), min_size=1, max_size=2, unique=True))
+        for f in fns:
+            L += [f"def {f}(state):", f"    d2.Setting = state + {len(f)}"]
+    label_words = fns + (["lbwhile1", "lbwhile.end1"] if fns else [])
     for i in range(n):
         k = draw(st.integers(0, 12))
         sing, plur = ss[draw(st.integers(0, len(ss) - 1))]
         s = draw(name_text)
+        if label_words and draw(st.booleans()):
+            ws = [draw(st.sampled_from(["Main", "Hangar", "1", "Left", "2", "A"])) for _ in range(draw(st.integers(0, 2)))]
+            ws.insert(draw(st.integers(0, len(ws))), draw(st.sampled_from(label_words)))
+            s = " ".join(ws)
         if k == 0:
             L.append(f"db.Setting = HASH({s!r})" if "'" not in s or True else "")
         elif k == 1:
@@ -204,6 +217,10 @@ def string_programs(draw):
             L.append(f"sb({raw!r}, LogicType.On, 1)")
         else:
             L.append(f"db.Setting = STR({draw(str_text)!r}) + 1")
+    for f in fns:
+        L += [f"{f}(1)", f"{f}(d0.Setting)"]
+    if fns:
+        L += ["while d1.On > 0:", "    yield_()"]
     base = {"remove_labels": draw(st.booleans()), "inline_functions": draw(st.booleans())}
     return {"src": {"": "\n".join(L) + "\n"}, "opts": base, "family": "strings"}
 
